@@ -189,6 +189,11 @@ def stepModel (d : DState) (ws : List String) (implOut : List String) : DState Ã
       (d, obs d (match (step d.s (.isBoot m hdr)).2 with
         | .resp o => outStr o | .isBoot b => toString b | _ => "bad-op"))
     | _, _ => bad
+  | ["regfault", m, onoff] =>
+    -- a write fault of a member's local region storage: the bootstrap records live in etcd, nothing changes
+    match memberArg m with
+    | some _ => if onoff = "on" âˆ¨ onoff = "off" then (d, obs d "ok") else bad
+    | none => bad
   | ["putconfig", m, hdr, body] =>
     match memberArg m, parseHdr hdr, parseHdr body with
     | some m, some hdr, some body =>
